@@ -110,7 +110,12 @@ func (k *KVStore) Compaction() (bool, error) {
 				if len(k.tables) == 1 {
 					break
 				}
-				delete(k.tablesByCoefficient, t.Coefficient())
+				// A recycled table has left the scan index already (evictTable) and Reset has
+				// zeroed its coefficient: an unconditional delete would drop the entry of the
+				// live table numbered 0.
+				if k.tablesByCoefficient[t.Coefficient()] == t {
+					delete(k.tablesByCoefficient, t.Coefficient())
+				}
 				k.tables = append(k.tables[:i], k.tables[i+1:]...)
 				i--
 			}
